@@ -3,6 +3,7 @@ pub mod c02;
 pub mod c03;
 pub mod c04;
 pub mod c05;
+pub mod c06;
 pub mod c09;
 pub mod c10;
 
@@ -50,6 +51,7 @@ pub fn run(id: &str, ctx: &mut Ctx) -> bool {
         "C03" => c03::run(ctx),
         "C04" => c04::run(ctx),
         "C05" => c05::run(ctx),
+        "C06" => c06::run(ctx),
         "C09" => c09::run(ctx),
         "C10" => c10::run(ctx),
         _ => return false,
@@ -89,6 +91,7 @@ pub fn replay_value(id: &str, ctx: &mut Ctx, r: &serde_json::Value) -> bool {
         "C03" => c03::replay(ctx, r),
         "C04" => c04::replay(ctx, r),
         "C05" => c05::replay(ctx, r),
+        "C06" => c06::replay(ctx, r),
         "C10" => c10::replay(ctx, r),
         _ => {
             let _ = (ctx, r);
